@@ -312,7 +312,20 @@ func smrJobs(prop string) func(tier string) []Job {
 }
 
 func init() {
-	register(&propDef{ID: "C04", Jobs: smrJobs("C04"),
+	register(&propDef{ID: "C04", Jobs: func(tier string) []Job {
+		jobs := smrJobs("C04")(tier)
+		// sequential histories on the guard allocator (incl. user-level chaining of live nodes through the link
+		// field, as NodeList does): every free is checked, freed pages are inaccessible
+		d := 4
+		if tier == "thorough" {
+			d = 5
+		}
+		jobs = append(jobs, seqJobs("C04", tier, []seqCfg{
+			{nCfg: nCfg{cmp: "default", writers: 2, mm: true}, policy: "drain", depth: d, maxSnaps: 3},
+			{nCfg: nCfg{cmp: "default", writers: 2, mm: true}, policy: "drain", depth: d - 1, maxSnaps: 3, init: "ab"},
+		})...)
+		return jobs
+	},
 		Rule:  "user-managed memory on the guard allocator (blocks outside the Go heap, one page-aligned slot per block, never reused, freed pages PROT_NONE, every hooked atomic access checked before it is performed, every free walks the structure at all levels); closed drivers: insert overtaken by a delete of the same node (height 1/2), two/three writers deleting the same key (same epoch / cross epoch), same-epoch delete against a lookup, same-epoch churn and snapshot closes (GC worker unlink -> flush -> free worker) against snapshot iterators with refresh rate 0/1 and against Visitor, Delete2 against Delete; all schedules of harness threads, GC workers and free workers within delay bound 2/3 and preemption bound 1; non-trivial = schedules deviating from the default with a context switch",
 		Notes: []string{"items obtained from an open iterator are dereferenced again after a harness scheduling point", "the free-while-linked walk stops when Nitro.Close starts (it frees linked nodes by design)", "Go atomics sequentially consistent; plain reads of freed memory fault (SetPanicOnFault) and are reported with the faulting nitro function"}})
 }
